@@ -8,5 +8,6 @@ CONSTANTS
   Offsets = {0, 3000}
   Flags = {FALSE, TRUE}
   Compat = {FALSE}
+  RefLibs = FALSE
 INVARIANT Dump
 CHECK_DEADLOCK FALSE
